@@ -201,6 +201,12 @@ m("C08-full-filter-inclusive-range", FMT, "        for &i in indices.iter().filt
 m("C08-benign-filter-as-range", FMT, "        for &i in indices.iter().filter(|&&i| i < start || i >= end) {", "        for &i in indices.iter().filter(|&i| !(start..end).contains(i)) {", "C08")
 m("C12-witness-calc-len-check-dropped", CALC, "        if len != value.len() {\n            return Err(Report::msg(format!(\"Invalid input length for {key}\")));\n        }\n", "        let _ = len;\n", "C12")
 
+m("C15-opt-recalculate-sets-flag", OMT, "            self.nodes.insert((depth, i), h);\n            if depth == 0 {", "            self.nodes.insert((depth, i), h);\n            self.cached_leaves_indices[index] = 1;\n            if depth == 0 {", "C15")
+m("C15-full-proof-marks-position", FMT, "    fn compute_root(&mut self) -> Result<FrOf<Self::Hasher>> {\n        Ok(self.root())", "    fn compute_root(&mut self) -> Result<FrOf<Self::Hasher>> {\n        self.cached_leaves_indices[0] = 1;\n        Ok(self.root())", "C15")
+m("C06-opt-compute-root-bumps-mark", OMT, "        self.recalculate_from(0)?;\n        Ok(self.root())", "        self.recalculate_from(0)?;\n        self.next_index = self.next_index.max(1);\n        Ok(self.root())", "C06")
+m("C06-full-capacity-double", FMT, "    fn capacity(&self) -> usize {\n        1 << self.depth\n    }", "    fn capacity(&self) -> usize {\n        2 << self.depth\n    }", "C06")
+m("C06-full-set-metadata-appends", FMT, "        self.metadata = metadata.to_vec();\n        Ok(())", "        self.metadata.extend_from_slice(metadata);\n        Ok(())", "C06")
+
 
 def main():
     os.makedirs(OUT, exist_ok=True)
